@@ -13,7 +13,7 @@
 #include <unistd.h>
 
 extern "C" __attribute__((used, visibility("default"), noinline)) const char *__asan_default_options() {
-    return "exitcode=77:detect_leaks=0:abort_on_error=0:handle_abort=1:print_summary=1:detect_stack_use_after_return=0";
+    return "exitcode=77:detect_leaks=0:abort_on_error=0:handle_abort=1:print_summary=1:detect_stack_use_after_return=0:quarantine_size_mb=4";
 }
 extern "C" __attribute__((used, visibility("default"), noinline)) const char *__ubsan_default_options() {
     return "print_stacktrace=1:halt_on_error=1:exitcode=77";
@@ -97,8 +97,7 @@ static RunResult run_plan(const Plan &p, bool verbose) {
             q.ops.clear();
             uint32_t carry = 0;
             for (auto &o : p.ops) {
-                bool mine = false;
-                for (auto &f : o.f) if (f.kind == F_DROP && !((f.a >> node) & 1)) mine = true;
+                bool mine = o.only == node;
                 if (mine) { Op c = o; c.dt += carry; carry = 0; q.ops.push_back(c); } else carry += o.dt;
             }
             q.tail_ms += carry;
@@ -123,6 +122,10 @@ static RunResult run_plan(const Plan &p, bool verbose) {
                 std::vector<Bytes> base = rb.op_txs.count((int)i) ? rb.op_txs[(int)i] : std::vector<Bytes>();
                 for (auto &tx : r.op_txs[(int)i]) {
                     auto it = std::find(base.begin(), base.end(), tx);
+                    if (it == base.end() && tx.size() == 34 && tx[wire::OFF_OP] == wire::W_QLTRESP && tx[32] == 0 && tx[33] == 0) {
+                        // a large property the platform could not deliver is reported as unavailable: the empty answer to the same request
+                        for (auto b = base.begin(); b != base.end(); ++b) if (b->size() >= 32 && memcmp(b->data(), tx.data(), 32) == 0) { it = b; break; }
+                    }
                     if (it == base.end()) { r.v.push_back({"C18", "faulted-request-answered-wrongly", "under an injected platform fault the request produced a frame that the fault-free run never sends"}); break; }
                     base.erase(it);
                 }
@@ -391,7 +394,7 @@ static Plan minimise(const Plan &p0, const std::string &checkprop, const std::st
             if (fails(c)) best = c; else j++;
         }
     // simplify: fewer nodes, shorter tail, zero gaps
-    while (best.nodes.size() > 1 && tests < 650) { Plan c = best; c.nodes.pop_back(); if (fails(c)) best = c; else break; }
+    while (best.nodes.size() > 1 && checkprop != "C17" && checkprop != "C10" && tests < 650) { Plan c = best; c.nodes.pop_back(); if (fails(c)) best = c; else break; }
     { Plan c = best; c.tail_ms = std::min<uint32_t>(c.tail_ms, 300); if (tests < 700 && c.tail_ms != best.tail_ms && fails(c)) best = c; }
     for (size_t i = 0; i < best.ops.size() && tests < 760; i++) if (best.ops[i].dt > 5) { Plan c = best; c.ops[i].dt = 5; if (fails(c)) best = c; }
     return best;
@@ -461,8 +464,8 @@ static const std::map<std::string, std::vector<std::string>> NONTRIVIAL = {
     {"C11", {"c11_classified"}},
     {"C12", {"c12_periodic_hello", "c12_suppressed", "c12_table_emptied_by_tick"}},
     {"C13", {"c13_block_end_injected_r", "c13_block_end_real_r"}},
-    {"C14", {"c14_passive_step", "c14_inactive_tick"}},
-    {"C15", {"c15_passive_step"}},
+    {"C14", {"c14_passive_step", "c14_inactive_tick", "c14_api_step"}},
+    {"C15", {"c15_passive_step", "c15_api_step"}},
     {"C16", {"c16_add_new", "c16_refresh"}},
     {"C17", {"c17_nonempty_trace_compared"}},
     {"C18", {"c18_subset_checked", "ctor_returned_null", "ctor_returned_object", "twin_compared"}},
@@ -490,6 +493,7 @@ static void worker_main(int wid, int nworkers, const std::string &prop, uint64_t
     Agg a;
     const std::vector<std::string> *nt = NONTRIVIAL.count(prop) ? &NONTRIVIAL.at(prop) : nullptr;
     uint64_t idx = start;
+    double last_ckpt = now_s();
     for (; idx < max_runs; idx += (uint64_t)nworkers) {
         if ((idx / nworkers) % 16 == 0 && now_s() > deadline) break;
         if (g_shm->stop) break;
@@ -514,6 +518,7 @@ static void worker_main(int wid, int nworkers, const std::string &prop, uint64_t
             if (r2.hash != r.hash) a.rerun_mismatch++;
         }
         g_shm->done[wid] = idx + 1;
+        if ((a.runs & 63) == 0) { double t = now_s(); if (t - last_ckpt > 1.0) { write_agg(a, resfile + ".tmp"); rename((resfile + ".tmp").c_str(), resfile.c_str()); last_ckpt = t; } }
     }
     g_shm->cur[wid] = 0;
     write_agg(a, resfile);
